@@ -130,6 +130,15 @@ func (r *Run) builtin(fr *Frame, b *ssa.Builtin, cc *ssa.CallCommon, args []Valu
 	case "print", "println":
 		return nil
 	case "recover":
+		// effective only when called directly by a deferred function while its deferrer is panicking
+		if fr != nil && fr.caller != nil && fr.caller.panicking != nil {
+			v := fr.caller.panicking.val
+			fr.caller.panicking = nil
+			if iv, ok := v.(*IfaceV); ok {
+				return iv
+			}
+			return &IfaceV{t: anyType, v: v}
+		}
 		return &IfaceV{}
 	case "ssa:wrapnilchk":
 		p := args[0].(*PtrV)
